@@ -1,4 +1,4 @@
 CONSTANTS Alphabet = {97, 61, 38, 37, 43, 49, 0}  MaxLen = 6
 SPECIFICATION Spec
-INVARIANTS StreamEqualsRef RefShape
+INVARIANTS StreamEqualsRef RefShape XConservative
 CHECK_DEADLOCK FALSE
